@@ -8,7 +8,7 @@
    that stay abstract (text of serde_json's error message, re-spelling of non-integer number tokens, schema
    validation) and is universally quantified.  FIXED = the code after the two `fix:` commits for S11 (what
    /repo contains now), UNFIXED = the code before them. *)
-From RipV Require Import Base.Prelude Base.Utf8 Base.Json Model.Sse Model.SseJson.
+From RipV Require Import Base.Prelude Base.Utf8 Base.Json Model.Sse Model.SseJson Model.SseFacts.
 From RipV Require Import Proofs.Utf8Proofs Proofs.SseProofs Proofs.SseJsonProofs.
 From RipV Require Base.JsonParse.
 
@@ -184,6 +184,15 @@ Theorem c15_seq_overflow_iff :
   <-> TWO64 <= off + nlen (fst (run_pipe classify FIXED off cs terr)).
 Proof. exact seq_overflow_iff. Qed.
 Print Assumptions c15_seq_overflow_iff.
+
+(* T1: the model's rule for one complete line IS the interpreter of the rule table, and the table, the split / trim
+   characters and the other source facts are re-read from the Rust source on every run (Gen/SseGen.v:
+   gen_sse_decoder_ok, gen_sse_mapper_ok, gen_sse_pipe_ok) *)
+Theorem c15_line_rule_is_table :
+  forall (classify : option str -> str -> cls) (s : lstate) (l : str),
+  line_step classify s l = line_step_gen classify LINE_RULES CR s l.
+Proof. exact line_step_is_rules. Qed.
+Print Assumptions c15_line_rule_is_table.
 
 (* the SseDecoder alone (library level, text chunks) *)
 Theorem c15_decoder_chunk_invariant :
